@@ -1,4 +1,568 @@
-/- Model for area `abci` (stub). -/
+/-
+Model of the sequencer's ABCI++ block pipeline (crates/astria-sequencer/src/app/mod.rs,
+app/execution_state.rs, proposal/block_size_constraints.rs, the typed data-item parser of
+astria-core sequencerblock/v1/block/mod.rs, action/group/mod.rs).
+
+Hand-written, in the order the Rust does things, including its error kinds.  The ledger itself
+(what a transaction does to the state) is abstract: the primitives in `Prims` are opaque
+functions of an arbitrary state type `S`.  Everything that decides *which* primitive runs
+*when* — the execution-state fingerprint, skip decisions, early bails, the prepare/process/
+finalize loops, size constraints, group order, data-item order — is concrete.
+No Mathlib (the driver links this file).
+-/
 namespace Astria.Abci
+
+/-! ## Error kinds (the `wrap_err` contexts / `bail!` messages of app/mod.rs) -/
+
+inductive Err
+  | nohash        -- "block hash is empty"
+  | parse         -- "failed to parse data items"
+  | nolastcommit  -- "proposed/local last commit is empty"
+  | ve            -- "failed to validate extended commit info"
+  | pre           -- "failed to prepare for executing block" / "failed to execute block"
+  | construct     -- "failed to construct checked transactions …"
+  | seqlimit      -- "max block sequenced data limit passed"
+  | group         -- "transactions have incorrect transaction group ordering"
+  | exec          -- "transaction failed to execute"
+  | size          -- "error growing … block size" (checked_add; unreachable after has_space)
+  | root1         -- "rollup transactions commitment does not match expected"
+  | root2         -- "rollup IDs commitment does not match expected"
+  | post          -- "failed to run post execute transactions handler"
+  | prices        -- "failed to apply prices from vote extensions"
+  | nocache       -- "executed txs must be present in ephemeral store after execution"
+  | fingerprint   -- execution-state machine refused a transition
+  | constraints   -- "failed to create block size constraints"
+  | injected      -- "exceeded size limit while adding …"
+  deriving DecidableEq, Repr, Inhabited
+
+def Err.name : Err → String
+  | .nohash => "nohash" | .parse => "parse" | .nolastcommit => "nolastcommit" | .ve => "ve"
+  | .pre => "pre" | .construct => "construct" | .seqlimit => "seqlimit" | .group => "group"
+  | .exec => "exec" | .size => "size" | .root1 => "root1" | .root2 => "root2" | .post => "post"
+  | .prices => "prices" | .nocache => "nocache" | .fingerprint => "fingerprint"
+  | .constraints => "constraints" | .injected => "injected"
+
+/-! ## Transactions and data items -/
+
+/-- What the pipeline looks at in a (decoded, signed) transaction. `group` is the numeric value of
+`action::Group` (UnbundleableSudo = 1 … BundleableGeneral = 4). -/
+structure Tx where
+  id : Nat
+  len : Nat      -- encoded bytes (`encoded_bytes().len()`)
+  seq : Nat      -- Σ rollup data bytes (`rollup_data_bytes()`)
+  group : Nat
+  deriving DecidableEq, Repr, Inhabited
+
+/-- One element of the `txs` field of a CometBFT request/response. `bid` identifies the byte
+string (equal ids ⇔ equal bytes). -/
+inductive Item
+  | root1 (bid : Nat)                       -- DataItem::RollupTransactionsRoot
+  | root2 (bid : Nat)                       -- DataItem::RollupIdsRoot
+  | upgrade (bid : Nat)                     -- DataItem::UpgradeChangeHashes
+  | eci (bid len : Nat) (wellFormed : Bool) -- DataItem::ExtendedCommitInfo; `wellFormed`: its payload converts to the native type
+  | tx (t : Tx)                             -- bytes of a transaction
+  | garbage (bid len : Nat)                 -- bytes that decode as neither
+  deriving DecidableEq, Repr, Inhabited
+
+def Item.len : Item → Nat
+  | .root1 _ => 34 | .root2 _ => 34 | .upgrade _ => 0 | .eci _ l _ => l | .tx t => t.len
+  | .garbage _ l => l
+
+/-! ## execution_state.rs -/
+
+/-- `CachedProposal`: the seven compared fields. `txs` are the raw data items. `lastCommit` is the
+`CommitInfo` (for `PrepareProposal` the extended commit info stripped of its extensions). -/
+structure CachedProposal where
+  time : Nat
+  proposer : Nat
+  txs : List Item
+  lastCommit : Option Nat
+  misbehavior : Nat
+  nextValHash : Nat
+  height : Nat
+  deriving DecidableEq, Repr, Inhabited
+
+inductive ExecState
+  | unset
+  | prepared (c : CachedProposal)
+  | preparedValid (c : CachedProposal)
+  | checkedPreparedMismatch (c : CachedProposal)
+  | executedBlock (hash : Nat) (cp : Option CachedProposal)
+  | checkedExecutedBlockMismatch (hash : Nat) (cp : Option CachedProposal)
+  deriving DecidableEq, Repr, Inhabited
+
+/-- `ExecutionStateMachine::set_prepared_proposal` -/
+def ExecState.setPrepared (e : ExecState) (c : CachedProposal) : Except Err ExecState :=
+  match e with
+  | .unset => .ok (.prepared c)
+  | _ => .error .fingerprint
+
+/-- `check_if_prepared_proposal`: new state and whether execution may be skipped -/
+def ExecState.checkPrepared (e : ExecState) (c : CachedProposal) : ExecState × Bool :=
+  match e with
+  | .prepared c' | .preparedValid c' =>
+      if c' = c then (.preparedValid c', true) else (.checkedPreparedMismatch c', false)
+  | e => (e, false)
+
+/-- `set_executed_block` -/
+def ExecState.setExecuted (e : ExecState) (h : Nat) : Except Err ExecState :=
+  match e with
+  | .unset => .ok (.executedBlock h none)
+  | .preparedValid c => .ok (.executedBlock h (some c))
+  | _ => .error .fingerprint
+
+/-- `check_if_executed_block` -/
+def ExecState.checkExecuted (e : ExecState) (h : Nat) : ExecState × Bool :=
+  match e with
+  | .prepared c | .preparedValid c => (.checkedPreparedMismatch c, false)
+  | .executedBlock h' cp =>
+      if h = h' then (.executedBlock h' cp, true) else (.checkedExecutedBlockMismatch h' cp, false)
+  | e => (e, false)
+
+/-! ## proposal/block_size_constraints.rs -/
+
+def maxSeqBytes : Nat := 256000
+def usizeMax : Nat := 2 ^ 64 - 1
+/-- `GeneratedCommitments::<true>::total_size()` : two encoded 32-byte roots -/
+def commitmentsSize : Nat := 68
+
+structure BSC where
+  maxSeq : Nat
+  maxComet : Nat
+  curSeq : Nat
+  curComet : Nat
+  deriving DecidableEq, Repr, Inhabited
+
+/-- `BlockSizeConstraints::new(max_tx_bytes: i64, true)` -/
+def BSC.new (maxTxBytes : Int) : Except Err BSC :=
+  if maxTxBytes < 0 then .error .constraints
+  else if maxTxBytes.toNat < commitmentsSize then .error .constraints
+  else .ok { maxSeq := maxSeqBytes, maxComet := maxTxBytes.toNat, curSeq := 0, curComet := commitmentsSize }
+
+/-- `new_unlimited_cometbft` -/
+def BSC.unlimited : BSC :=
+  { maxSeq := maxSeqBytes, maxComet := usizeMax, curSeq := 0, curComet := commitmentsSize }
+
+def BSC.seqHasSpace (b : BSC) (size : Nat) : Bool := size ≤ b.maxSeq - b.curSeq
+def BSC.cometHasSpace (b : BSC) (size : Nat) : Bool := size ≤ b.maxComet - b.curComet
+
+def BSC.seqAdd (b : BSC) (size : Nat) : Except Err BSC :=
+  if b.curSeq + size > usizeMax then .error .size
+  else if b.curSeq + size ≤ b.maxSeq then .ok { b with curSeq := b.curSeq + size } else .error .size
+
+def BSC.cometAdd (b : BSC) (size : Nat) : Except Err BSC :=
+  if b.curComet + size > usizeMax then .error .size
+  else if b.curComet + size ≤ b.maxComet then .ok { b with curComet := b.curComet + size }
+  else .error .size
+
+/-! ## Requests -/
+
+/-- A proposed / decided block as the application sees it (`ProcessProposal` / `FinalizeBlock`). -/
+structure Block where
+  height : Nat
+  time : Nat
+  proposer : Nat
+  lastCommit : Option Nat
+  misbehavior : Nat
+  nextValHash : Nat
+  items : List Item
+  hash : Option Nat         -- `Hash::Sha256(_)` or `Hash::None`
+  deriving DecidableEq, Repr, Inhabited
+
+/-- the fingerprint a `ProcessProposal` request is compared with -/
+def Block.fp (b : Block) : CachedProposal :=
+  { time := b.time, proposer := b.proposer, txs := b.items, lastCommit := b.lastCommit,
+    misbehavior := b.misbehavior, nextValHash := b.nextValHash, height := b.height }
+
+/-- `PrepareProposal` plus the part of the environment it reads: the mempool's builder queue. -/
+structure PrepReq where
+  height : Nat
+  time : Nat
+  proposer : Nat
+  lastCommit : Option Nat
+  misbehavior : Nat
+  nextValHash : Nat
+  maxTxBytes : Int
+  queue : List Tx
+  deriving Repr, Inhabited
+
+/-- the block-level data `pre_execute_transactions`, price application etc. depend on (`BlockData`) -/
+def PrepReq.asBlock (r : PrepReq) (items : List Item) : Block :=
+  { height := r.height, time := r.time, proposer := r.proposer, lastCommit := r.lastCommit,
+    misbehavior := r.misbehavior, nextValHash := r.nextValHash, items := items, hash := none }
+
+/-! ## Abstract primitives -/
+
+inductive TxOutcome (S : Type)
+  | ok (s : S)          -- executed, state delta applied
+  | nonfatal            -- `NonFatalExecution`: delta dropped, included with an error code
+  | invalidNonce        -- `InvalidNonce`: delta dropped
+  | fatal               -- any other error: delta dropped
+
+/-- The opaque parts of block execution. Every function reads only its arguments. -/
+structure Prims (S : Type) where
+  /-- `vote_extensions_enabled(height)` — reads the consensus params of the *working* state -/
+  veEnabled : S → Nat → Bool
+  /-- `ProposalHandler::validate_proposal` (C15) on the block's extended commit info -/
+  veValid : S → Block → Bool
+  /-- `pre_execute_transactions` (upgrade if due, begin_block) followed by
+  `ensure_upgrade_change_hashes_as_expected`; for `PrepareProposal` the latter is vacuous -/
+  pre : S → Block → Except Err S
+  /-- `CheckedTransaction::new(bytes, state)`: decoding, signature, nonce not in the past, every
+  action's checks against `state` -/
+  constructible : S → Tx → Bool
+  /-- `execute_transaction` -/
+  execTx : S → Tx → TxOutcome S
+  /-- `generate_rollup_datas_commitment(txs, cached deposits)` as the ids of the two encoded items -/
+  roots : S → List Tx → Nat × Nat
+  /-- the extended-commit-info item `PrepareProposal` builds (id, length) and the empty fallback -/
+  eciFull : S → PrepReq → Nat × Nat
+  eciEmpty : Nat × Nat
+  /-- `post_execute_transactions` after the fingerprint update: end_block, deposits, sequencer
+  block, upgrades end_block. Returns the new state and an opaque digest of (events, validator
+  updates, consensus-param updates). -/
+  post : S → Block → List (Tx × Nat) → Except Err (S × Nat)
+  /-- `apply_prices_from_vote_extensions` in a nested delta; returns the digest of its events -/
+  prices : S → Block → Except Err (S × Nat)
+
+/-! ## Typed data-item parsing (`ExpandedBlockData::new_from_typed_data`) -/
+
+structure Parsed where
+  r1 : Nat
+  r2 : Nat
+  upgrade : Option Nat
+  eci : Option (Nat × Nat)
+  txs : List Item
+  deriving DecidableEq, Repr, Inhabited
+
+def Parsed.injected (p : Parsed) : Nat :=
+  2 + (if p.upgrade.isSome then 1 else 0) + (if p.eci.isSome then 1 else 0)
+
+def parseItems (veOn : Bool) : List Item → Except Err Parsed
+  | .root1 a :: .root2 b :: rest =>
+      let (up, rest) : Option Nat × List Item :=
+        match rest with
+        | .upgrade u :: r => (some u, r)
+        | r => (none, r)
+      if veOn then
+        match rest with
+        | .eci bid len wf :: r =>
+            if wf then .ok { r1 := a, r2 := b, upgrade := up, eci := some (bid, len), txs := r }
+            else .error .parse
+        | _ => .error .parse
+      else .ok { r1 := a, r2 := b, upgrade := up, eci := none, txs := rest }
+  | _ => .error .parse
+
+/-! ## construct_checked_txs and the three execution loops -/
+
+/-- `construct_checked_txs`: every remaining item must be a transaction that can be constructed
+against the given (block-start) state. -/
+def constructAll {S : Type} (p : Prims S) (s : S) : List Item → Except Err (List Tx)
+  | [] => .ok []
+  | .tx t :: rest =>
+      if p.constructible s t then
+        match constructAll p s rest with
+        | .ok ts => .ok (t :: ts)
+        | .error e => .error e
+      else .error .construct
+  | _ :: _ => .error .construct
+
+/-- `AbciErrorCode::TRANSACTION_FAILED_EXECUTION` -/
+def failedExecutionCode : Nat := 10
+
+/-- an included transaction with its result code: 0 ok, `failedExecutionCode` for a non-fatal failure -/
+abbrev Executed := Tx × Nat
+
+structure LoopSt (S : Type) where
+  s : S
+  bsc : BSC
+  group : Nat
+  done : List Executed        -- in execution order
+
+def LoopSt.init {S : Type} (s : S) (bsc : BSC) : LoopSt S :=
+  { s := s, bsc := bsc, group := 4, done := [] }
+
+/-- the tail of `proposal_checks_and_tx_execution` after a transaction was executed (or failed
+non-fatally): push, grow both counters, remember the group -/
+def LoopSt.push {S : Type} (st : LoopSt S) (s' : S) (t : Tx) (code : Nat) : Except Err (LoopSt S) :=
+  match st.bsc.seqAdd t.seq with
+  | .error e => .error e
+  | .ok b1 =>
+    match b1.cometAdd t.len with
+    | .error e => .error e
+    | .ok b2 => .ok { s := s', bsc := b2, group := t.group, done := st.done ++ [(t, code)] }
+
+/-- `process_proposal_tx_execution`: every check is fatal -/
+def procLoop {S : Type} (p : Prims S) : LoopSt S → List Tx → Except Err (LoopSt S)
+  | st, [] => .ok st
+  | st, t :: ts =>
+      if !st.bsc.seqHasSpace t.seq then .error .seqlimit
+      else if t.group > st.group then .error .group
+      else
+        match p.execTx st.s t with
+        | .ok s' => match st.push s' t 0 with
+                    | .ok st' => procLoop p st' ts
+                    | .error e => .error e
+        | .nonfatal => match st.push st.s t failedExecutionCode with
+                    | .ok st' => procLoop p st' ts
+                    | .error e => .error e
+        | .invalidNonce => .error .exec
+        | .fatal => .error .exec
+
+/-- `prepare_proposal_tx_execution`: break when CometBFT space is exhausted, skip otherwise -/
+def prepLoop {S : Type} (p : Prims S) : LoopSt S → List Tx → Except Err (LoopSt S)
+  | st, [] => .ok st
+  | st, t :: ts =>
+      if !st.bsc.cometHasSpace t.len then .ok st            -- break
+      else if !st.bsc.seqHasSpace t.seq then prepLoop p st ts   -- continue
+      else if t.group > st.group then prepLoop p st ts          -- continue
+      else
+        match p.execTx st.s t with
+        | .ok s' => match st.push s' t 0 with
+                    | .ok st' => prepLoop p st' ts
+                    | .error e => .error e
+        | .nonfatal => match st.push st.s t failedExecutionCode with
+                    | .ok st' => prepLoop p st' ts
+                    | .error e => .error e
+        | .invalidNonce => prepLoop p st ts                    -- continue (kept in mempool)
+        | .fatal => prepLoop p st ts                           -- continue (removed from mempool)
+
+/-- the loop in `finalize_block`: no size or group checks, failing transactions are ignored -/
+def finLoop {S : Type} (p : Prims S) : S → List Executed → List Tx → S × List Executed
+  | s, done, [] => (s, done)
+  | s, done, t :: ts =>
+      match p.execTx s t with
+      | .ok s' => finLoop p s' (done ++ [(t, 0)]) ts
+      | .nonfatal => finLoop p s (done ++ [(t, failedExecutionCode)]) ts
+      | .invalidNonce => finLoop p s done ts
+      | .fatal => finLoop p s done ts
+
+/-! ## The application -/
+
+structure PostResult where
+  results : List Executed
+  injected : Nat
+  aux : Nat
+  deriving DecidableEq, Repr, Inhabited
+
+/-- `App`: storage's latest snapshot, the inter-block `StateDelta` with the two ephemeral objects
+the pipeline keeps in it, the fingerprint, and the staged write batch. -/
+structure AppState (S : Type) where
+  committed : S
+  work : S
+  exec : ExecState
+  executedTxs : Option (List Executed)     -- EXECUTED_TXS_KEY
+  postResult : Option PostResult           -- POST_TRANSACTION_EXECUTION_RESULT_KEY
+  writeBatch : Option S
+
+/-- `App::new` on a storage whose latest snapshot is `σ` (also: a restarted node) -/
+def AppState.init {S : Type} (σ : S) : AppState S :=
+  { committed := σ, work := σ, exec := .unset, executedTxs := none, postResult := none,
+    writeBatch := none }
+
+/-- `update_state_for_new_round` -/
+def AppState.reset {S : Type} (a : AppState S) : AppState S :=
+  { a with work := a.committed, exec := .unset, executedTxs := none, postResult := none }
+
+structure FinalizeResp (S : Type) where
+  priceEvents : Nat
+  codes : List Nat          -- one per data item: zeros for injected items, then the tx codes
+  aux : Nat
+  app : S                   -- the state whose root is the app hash
+
+inductive Call
+  | prepare (r : PrepReq)
+  | process (b : Block)
+  | finalize (b : Block)
+  | commit
+  | restart
+  deriving Repr, Inhabited
+
+inductive Resp (S : Type)
+  | prepared (items : List Item)
+  | prepareErr (e : Err)
+  | accept
+  | reject (e : Err)
+  | finalized (r : FinalizeResp S)
+  | finalizeErr (e : Err)
+  | finalizePanic            -- `.expect("post_transaction_execution_result must be present …")`
+  | committed
+  | commitPanic              -- `.expect("write batch must be set …")`
+  | restarted
+
+/-- `post_execute_transactions`: fingerprint first, then the fallible rest. -/
+def postStep {S : Type} (p : Prims S) (a : AppState S) (b : Block) (pd : Parsed)
+    (ex : List Executed) : AppState S × Except Err Unit :=
+  match b.hash with
+  | none => (a, .error .nohash)
+  | some h =>
+    match a.exec.setExecuted h with
+    | .error e => (a, .error e)
+    | .ok ex' =>
+      let a := { a with exec := ex' }
+      match p.post a.work b ex with
+      | .error e => (a, .error e)
+      | .ok (s', aux) =>
+        ({ a with work := s', postResult := some { results := ex, injected := pd.injected, aux := aux } },
+         .ok ())
+
+/-- The extended-commit-info item of a proposal: none if vote extensions are not enabled at this
+height; the full item if it fits; else "try just adding an empty extended commit info"
+(`DataItem::ExtendedCommitInfo(Bytes::new())`, which no parser accepts); else an error. -/
+def prepEci {S : Type} (p : Prims S) (s : S) (r : PrepReq) (bsc : BSC) : Except Err (Option Item × BSC) :=
+  if p.veEnabled s r.height then
+    match r.lastCommit with
+    | none => .error .nolastcommit
+    | some _ =>
+      match bsc.cometAdd (p.eciFull s r).2 with
+      | .ok bsc' => .ok (some (.eci (p.eciFull s r).1 (p.eciFull s r).2 true), bsc')
+      | .error _ =>
+        match bsc.cometAdd p.eciEmpty.2 with
+        | .ok bsc' => .ok (some (.eci p.eciEmpty.1 p.eciEmpty.2 false), bsc')
+        | .error _ => .error .injected
+  else .ok (none, bsc)
+
+/-- the `txs` of the `PrepareProposal` response -/
+def proposalItems (r1 r2 : Nat) (eci : Option Item) (done : List Executed) : List Item :=
+  [Item.root1 r1, Item.root2 r2] ++ eci.toList ++ done.map (fun e => Item.tx e.1)
+
+/-- the fingerprint `set_prepared_proposal` stores -/
+def PrepReq.fp (r : PrepReq) (items : List Item) : CachedProposal :=
+  { time := r.time, proposer := r.proposer, txs := items, lastCommit := r.lastCommit,
+    misbehavior := r.misbehavior, nextValHash := r.nextValHash, height := r.height }
+
+/-- `prepare_proposal` (no upgrade change hashes at the modelled heights) -/
+def stepPrepare {S : Type} (p : Prims S) (a : AppState S) (r : PrepReq) : AppState S × Resp S :=
+  let a := a.reset
+  match p.pre a.work (r.asBlock []) with
+  | .error _ => (a, .prepareErr .pre)
+  | .ok s1 =>
+    let a := { a with work := s1 }
+    match BSC.new r.maxTxBytes with
+    | .error e => (a, .prepareErr e)
+    | .ok bsc =>
+      match prepEci p s1 r bsc with
+      | .error e => (a, .prepareErr e)
+      | .ok (eciItem, bsc) =>
+        match prepLoop p (LoopSt.init s1 bsc) r.queue with
+        | .error _ => (a, .prepareErr .exec)
+        | .ok st =>
+          let a := { a with work := st.s, executedTxs := some st.done }
+          let items := proposalItems (p.roots st.s (st.done.map (·.1))).1 (p.roots st.s (st.done.map (·.1))).2 eciItem st.done
+          match a.exec.setPrepared (r.fp items) with
+          | .error e => (a, .prepareErr e)
+          | .ok ex => ({ a with exec := ex }, .prepared items)
+
+/-- the non-cached branch of `process_proposal` up to (excluding) `post_execute_transactions` -/
+def processExec {S : Type} (p : Prims S) (a : AppState S) (b : Block) (pd : Parsed) :
+    AppState S × Except Err (List Executed) :=
+  let a := a.reset
+  let veOk : Except Err Unit :=
+    if pd.eci.isSome then
+      (if b.lastCommit.isNone then .error .nolastcommit
+       else if p.veValid a.work b then .ok () else .error .ve)
+    else .ok ()
+  match veOk with
+  | .error e => (a, .error e)
+  | .ok _ =>
+    match p.pre a.work b with
+    | .error e => (a, .error e)
+    | .ok s1 =>
+      let a := { a with work := s1 }
+      match constructAll p s1 pd.txs with
+      | .error e => (a, .error e)
+      | .ok txs =>
+        match procLoop p (LoopSt.init s1 BSC.unlimited) txs with
+        | .error e => (a, .error e)
+        | .ok st =>
+          let a := { a with work := st.s }
+          let (r1, r2) := p.roots st.s txs
+          if pd.r1 ≠ r1 then (a, .error .root1)
+          else if pd.r2 ≠ r2 then (a, .error .root2)
+          else (a, .ok st.done)
+
+/-- `process_proposal` -/
+def stepProcess {S : Type} (p : Prims S) (a : AppState S) (b : Block) : AppState S × Resp S :=
+  let (ex1, skip) := a.exec.checkPrepared b.fp
+  let a := { a with exec := ex1 }
+  match parseItems (p.veEnabled a.work b.height) b.items with
+  | .error e => (a, .reject e)
+  | .ok pd =>
+    let (a, exd) : AppState S × Except Err (List Executed) :=
+      if skip then
+        match a.executedTxs with
+        | none => (a, .error .nocache)
+        | some ex => (a, .ok ex)
+      else processExec p a b pd
+    match exd with
+    | .error e => (a, .reject e)
+    | .ok ex =>
+      match postStep p a b pd ex with
+      | (a, .error e) => (a, .reject e)
+      | (a, .ok _) => (a, .accept)
+
+/-- the non-cached branch of `finalize_block` after price application -/
+def finalizeExec {S : Type} (p : Prims S) (a : AppState S) (b : Block) (pd : Parsed) :
+    AppState S × Except Err Unit :=
+  match p.pre a.work b with
+  | .error e => (a, .error e)
+  | .ok s1 =>
+    let a := { a with work := s1 }
+    match constructAll p s1 pd.txs with
+    | .error e => (a, .error e)
+    | .ok txs =>
+      let (s2, ex) := finLoop p s1 [] txs
+      postStep p { a with work := s2 } b pd ex
+
+/-- `finalize_block` -/
+def stepFinalize {S : Type} (p : Prims S) (a : AppState S) (b : Block) : AppState S × Resp S :=
+  match b.hash with
+  | none => (a, .finalizeErr .nohash)
+  | some h =>
+    let (ex1, skip) := a.exec.checkExecuted h
+    let a := if skip then { a with exec := ex1 } else ({ a with exec := ex1 } : AppState S).reset
+    match parseItems (p.veEnabled a.work b.height) b.items with
+    | .error e => (a, .finalizeErr e)
+    | .ok pd =>
+      let pr : Except Err (S × Nat) :=
+        if pd.eci.isSome then p.prices a.work b else .ok (a.work, 0)
+      match pr with
+      | .error _ => (a, .finalizeErr .prices)
+      | .ok (s1, ev) =>
+        let a := { a with work := s1 }
+        let (a, r) : AppState S × Except Err Unit :=
+          if skip then (a, .ok ()) else finalizeExec p a b pd
+        match r with
+        | .error e => (a, .finalizeErr e)
+        | .ok _ =>
+          match a.postResult with
+          | none => (a, .finalizePanic)
+          | some res =>
+            let resp : FinalizeResp S :=
+              { priceEvents := ev,
+                codes := List.replicate res.injected 0 ++ res.results.map (·.2),
+                aux := res.aux, app := a.work }
+            -- prepare_commit: the delta is taken out and staged; `self.state` becomes a fresh
+            -- delta on the latest snapshot (the ephemeral objects go with the old one)
+            ({ a with writeBatch := some a.work, work := a.committed, executedTxs := none,
+                      postResult := none }, .finalized resp)
+
+/-- `commit` -/
+def stepCommit {S : Type} (a : AppState S) : AppState S × Resp S :=
+  match a.writeBatch with
+  | none => (a, .commitPanic)
+  | some s => (AppState.init s, .committed)
+
+def step {S : Type} (p : Prims S) (a : AppState S) : Call → AppState S × Resp S
+  | .prepare r => stepPrepare p a r
+  | .process b => stepProcess p a b
+  | .finalize b => stepFinalize p a b
+  | .commit => stepCommit a
+  | .restart => (AppState.init a.committed, .restarted)
+
+/-- run a list of calls, dropping the responses -/
+def runCalls {S : Type} (p : Prims S) (a : AppState S) : List Call → AppState S
+  | [] => a
+  | c :: cs => runCalls p (step p a c).1 cs
 
 end Astria.Abci
